@@ -10,7 +10,7 @@ from .. import facts
 from ..cfg import Cfg, bool_edges
 from ..common import arg_fields, arg_roots, def_of, inst_of, method, target_of, gate_for
 from ..interp import Interp, Stuck
-from ..prov import Prov, flatten
+from ..prov import Prov, flatten, field_names
 from ..util import fns_by_key, keyname, place_of, norm, last
 
 LEVEL = "other"
@@ -153,6 +153,37 @@ def _flow(ck, p, byk):
             ok = True
             detail = "push is dominated by the edge on which token.suffix != correct_suffix_for(value)"
     ck.decide(rule, "CorrectNumberSuffix::lint:iff-different", ok, f.span, detail)
+    # ... and only then: nothing else may route a suffixed number around the push
+    from ..common import skip_switches
+    loops = cfg.natural_loops()
+    inside = [h for h, bd in loops.items() if pb in bd]
+    if inside:
+        head = max(inside, key=lambda h: len(loops[h]))
+        extra = []
+        n_ok = 0
+        for b2, t2 in skip_switches(f, cfg, loops[head], head, pb):
+            dl = place_of(t2["discr"])[0] if place_of(t2["discr"]) else None
+            kind = None
+            for (b3, si, k3, x3) in pv.defs.get(dl, []):
+                if k3 == "assign" and x3["rv"]["k"] == "discr":
+                    src = x3["rv"]["place"]
+                    names_ = {e[2] for e in src[1:] if isinstance(e, list) and e[0] == "f"} | set(field_names(pv.trace_local(src[0])))
+                    roots_ = {last(norm(o[3] or o[2] or "")) for o in flatten(pv.trace_local(src[0])) if o[0] == "call"}
+                    if roots_ & {"pulled_by", "correct_suffix_for", "next"} or names_ & {"kind", "suffix"}:
+                        kind = "option/variant test"
+                elif k3 == "call" and (def_of(x3).endswith("cmp::PartialEq::ne") or def_of(x3).endswith("cmp::PartialEq::eq")):
+                    kind = "suffix comparison"
+                elif k3 == "assign" and x3["rv"]["k"] == "use" and place_of(x3["rv"]["op"]):
+                    for (b4, s4, k4, x4) in pv.defs.get(place_of(x3["rv"]["op"])[0], []):
+                        if k4 == "call" and (def_of(x4).endswith("cmp::PartialEq::ne") or def_of(x4).endswith("cmp::PartialEq::eq")):
+                            kind = "suffix comparison"
+            if kind:
+                n_ok += 1
+            else:
+                extra.append(f.loc(t2.get("ln") or 0))
+        ck.decide(rule, "CorrectNumberSuffix::lint:only-if-same", not extra and n_ok >= 2, f.span,
+                  "a number with a suffix is skipped only because the suffix is right (or the token has no suffix / correct_suffix_for has no answer): %d recognised tests%s" % (
+                      n_ok, "" if not extra else "; but another condition (at %s) also suppresses the lint: a wrong suffix goes unreported whenever it holds" % ", ".join(sorted(set(extra)))))
     # value passed is the token's value
     val_ok = "value" in str(pv.trace_operand(cs[0][1]["args"][0])) or "value" in arg_fields(pv, cs[0][1]["args"][0])
     ck.decide(rule, "CorrectNumberSuffix::lint:value", val_ok, f.loc(cs[0][1]["ln"]), "correct_suffix_for receives the number token's own value: %s" % val_ok)
